@@ -408,7 +408,7 @@ fn second_key_rejected(name: &'static str) -> bool {
 #[kani::proof]
 #[kani::unwind(12)]
 #[kani::stub(alloc::fmt::format, stub_format)]
-fn c16_clause_second_key() {
+fn c16_clause_second_key_a() {
     assert!(second_key_rejected("_system"), "OBL:C16.clause.set_protected");
     assert!(second_key_rejected("space_seq"), "OBL:C16.clause.set_protected");
     kani::cover!(true, "COVER:reach");
@@ -418,7 +418,7 @@ fn c16_clause_second_key() {
 #[kani::proof]
 #[kani::unwind(12)]
 #[kani::stub(alloc::fmt::format, stub_format)]
-fn c16_clause_second_key_more() {
+fn c16_clause_second_key_b() {
     assert!(second_key_rejected("governance"), "OBL:C16.clause.set_protected");
     assert!(second_key_rejected("space_id"), "OBL:C16.clause.set_protected");
     // (no acceptance cover here: two ordinary keys mean two insertions into the
@@ -599,34 +599,36 @@ fn c16_clause_plan_accepts_minimal() {
     kani::cover!(true, "COVER:reach");
 }
 
-/// Bound handles are accepted: by the clause's own WHERE (`ARCHIVE ?x WHERE
-/// { ?x ASSERTION {} }`) and by an earlier clause (`CREATE CONCEPT ?h {} ;
-/// ARCHIVE ?h`). Cover only: vacuity guard of `unbound_handle_rejected`
+/// A handle bound by the clause's own WHERE is accepted: `ARCHIVE ?x WHERE
+/// { ?x ASSERTION {} }`. Cover only: vacuity guard of `unbound_handle_rejected`
 /// (thorough tier).
 #[kani::proof]
 #[kani::unwind(12)]
 #[kani::stub(alloc::fmt::format, stub_format)]
-fn c16_clause_plan_accepts_bound() {
-    let by_where = {
-        stack_vec!(wh = [WhereClause::Assertion { variable: sv("x"), matcher: ObjectMatcher::new() }]);
-        stack_vec!(
-            cl = [MutationClause::Archive(RemovalStatement {
-                target: ElementRef::Handle(sv("x")),
-                where_clauses: Some(wh),
-                limit: None,
-                expect_state: None,
-            })]
-        );
-        let r = ManuallyDrop::new(validate_plan(&plan(cl)));
-        r.is_ok()
-    };
-    let by_plan = {
-        stack_vec!(cl = [create_concept_bare("h"), archive(ElementRef::Handle(sv("h")))]);
-        let r = ManuallyDrop::new(validate_plan(&plan(cl)));
-        r.is_ok()
-    };
-    kani::cover!(by_where, "COVER:where_bound_accepted");
-    kani::cover!(by_plan, "COVER:plan_bound_accepted");
+fn c16_clause_plan_accepts_where_bound() {
+    stack_vec!(wh = [WhereClause::Assertion { variable: sv("x"), matcher: ObjectMatcher::new() }]);
+    stack_vec!(
+        cl = [MutationClause::Archive(RemovalStatement {
+            target: ElementRef::Handle(sv("x")),
+            where_clauses: Some(wh),
+            limit: None,
+            expect_state: None,
+        })]
+    );
+    let r = ManuallyDrop::new(validate_plan(&plan(cl)));
+    kani::cover!(r.is_ok(), "COVER:where_bound_accepted");
     kani::cover!(true, "COVER:reach");
 }
 
+/// A handle declared by an earlier clause is accepted: `CREATE CONCEPT ?h {} ;
+/// ARCHIVE ?h`. Cover only (thorough tier). (Both acceptance covers in ONE
+/// harness exceeded the 12 GB memory limit.)
+#[kani::proof]
+#[kani::unwind(12)]
+#[kani::stub(alloc::fmt::format, stub_format)]
+fn c16_clause_plan_accepts_plan_bound() {
+    stack_vec!(cl = [create_concept_bare("h"), archive(ElementRef::Handle(sv("h")))]);
+    let r = ManuallyDrop::new(validate_plan(&plan(cl)));
+    kani::cover!(r.is_ok(), "COVER:plan_bound_accepted");
+    kani::cover!(true, "COVER:reach");
+}
